@@ -1217,6 +1217,9 @@ class Client:
             if self.ignore_exc:
                 return {}
             raise
+        except BaseException:
+            self.close()
+            raise
 
     def _store_cmd(
         self,
@@ -1300,7 +1303,7 @@ class Client:
                 else:
                     raise MemcacheUnknownError(line[:32])
             return results
-        except Exception:
+        except BaseException:
             self.close()
             raise
 
@@ -1344,7 +1347,7 @@ class Client:
                 results.append(line)
             return results
 
-        except Exception:
+        except BaseException:
             self.close()
             raise
 
